@@ -39,6 +39,47 @@ fn ends_match(got: &[usize], exp: &FaRec, off: usize, upto: usize) -> bool {
     ok
 }
 
+/// the line ends of `exp` that lie before `limit`, as the reader's line-end vector (capacity 8).
+/// Built with a fixed number of pushes and one `set_len`: pushes under a symbolic condition make the
+/// vector's length symbolic at every later push and exhaust the solver's memory (measured: > 14 GB vs 47 s)
+pub fn ends_before(exp: &FaRec, limit: usize) -> Vec<usize> {
+    let mut v = Vec::with_capacity(8);
+    let mut k = 0;
+    let mut i = 0;
+    while i < FA_MAXL {
+        v.push(exp.ends[i]);
+        if i < exp.nends && exp.ends[i] < limit {
+            k += 1;
+        }
+        i += 1;
+    }
+    unsafe { v.set_len(k) };
+    v
+}
+
+/// as `ends_before`, for a caller that has fixed the number of line ends before `limit` to `k`
+/// (`None` if the record has a different number): the vector's length is then a constant
+pub fn ends_before_k<N: Nd>(nd: &mut N, exp: &FaRec, limit: usize, k: usize) -> Vec<usize> {
+    let mut v = Vec::with_capacity(8);
+    let mut cnt = 0;
+    let mut i = 0;
+    while i < FA_MAXL {
+        if i < k {
+            v.push(exp.ends[i]);
+        }
+        if i < exp.nends && exp.ends[i] < limit {
+            cnt += 1;
+        }
+        i += 1;
+    }
+    nd.assume(cnt == k);
+    v
+}
+
+pub fn ends_match_pub(got: &[usize], exp: &FaRec, off: usize, upto: usize) -> bool {
+    ends_match(got, exp, off, upto)
+}
+
 /// K: `search` (= `_search` + end-of-input rule) from a header anywhere in a window that shows
 /// the end of the input (capacity > bytes available)
 pub fn k_search_eof<N: Nd, const F: usize>(nd: &mut N) {
@@ -230,8 +271,15 @@ harnesses! {
 
 /// K: `init` (= `first_byte` + '>' validation) from `New`: skips leading blank lines across
 /// refills; reports the first non-blank line
-pub fn k_init<N: Nd, const F: usize, const CAP: usize, const FIXLEN: bool>(nd: &mut N) {
+pub fn k_init<N: Nd, const F: usize, const CAP: usize, const FIXLEN: bool, const BLANK: usize>(nd: &mut N) {
     let file: [u8; F] = any_file::<N, F>(nd);
+    // BLANK: the first BLANK bytes are line terminator bytes (instances that make the blank prefix
+    // span several buffer fills without paying for every file of that length)
+    let mut bi = 0;
+    while bi < BLANK {
+        nd.assume(file[bi] == LF || file[bi] == b'\r');
+        bi += 1;
+    }
     // FIXLEN: the file has exactly F bytes (one instance per length keeps the refill loop concrete)
     let n = if FIXLEN { F } else { nd.usize_in(0, F) };
     nd.note("format", b"fasta");
@@ -299,19 +347,24 @@ pub fn k_init<N: Nd, const F: usize, const CAP: usize, const FIXLEN: bool>(nd: &
 }
 
 pub fn k_init_f4_c3<N: Nd>(nd: &mut N) {
-    k_init::<N, 4, 3, true>(nd)
+    k_init::<N, 4, 3, true, 0>(nd)
+}
+pub fn k_init_f8_c3_b6<N: Nd>(nd: &mut N) {
+    k_init::<N, 8, 3, true, 6>(nd)
 }
 pub fn k_init_f5_c3<N: Nd>(nd: &mut N) {
-    k_init::<N, 5, 3, false>(nd)
+    k_init::<N, 5, 3, false, 0>(nd)
 }
 pub fn k_init_f5_c4<N: Nd>(nd: &mut N) {
-    k_init::<N, 5, 4, false>(nd)
+    k_init::<N, 5, 4, false, 0>(nd)
 }
 
 harnesses! {
     @reg registry2;
-    /// @meta props=C01,C17,C06,C05:t,C03:t tier=quick kind=K stage2=pub timeout=3000 mem=28 unwind=6 unwindset="first_byte:6;seq_io::fill_buf:4" bounds="fasta::Reader::init from New on every file of exactly 4 bytes at capacity 3 (blank prefix crossing one refill), whole reads"
+    /// @meta props=C01,C17,C06,C05,C03 tier=quick kind=K stage2=pub timeout=3000 mem=28 unwind=6 unwindset="first_byte:6;seq_io::fill_buf:4" bounds="fasta::Reader::init from New on every file of exactly 4 bytes at capacity 3 (blank prefix crossing one refill), whole reads"
     fak_init_f4_c3 => k_init_f4_c3;
+    /// @meta props=C17,C05,C03,C01:t,C06:t tier=quick kind=K stage2=pub timeout=3000 mem=20 unwind=9 unwindset="first_byte:9;seq_io::fill_buf:4" bounds="fasta::Reader::init from New at capacity 3 on every 8-byte file that starts with 6 line-terminator bytes (any mixture of LF and CR): blank prefix spanning three or more buffer fills, whole reads"
+    fak_init_f8_c3_b6 => k_init_f8_c3_b6;
     /// @meta props=C01,C05,C17,C03,C06 tier=thorough kind=K stage2=pub timeout=3000 mem=16 unwind=8 unwindset="first_byte:7;seq_io::fill_buf:4" bounds="fasta::Reader::init from New on every file <= 5 bytes at capacity 3 (blank prefix crossing up to 2 refills), whole reads"
     fak_init_f5_c3 => k_init_f5_c3;
     /// @meta props=C01,C05,C17,C03,C06 tier=thorough kind=K stage2=pub timeout=1500 mem=12 unwind=8 unwindset="first_byte:6;seq_io::fill_buf:4" bounds="fasta::Reader::init from New on every file <= 5 bytes at capacity 4, whole reads"
@@ -386,7 +439,7 @@ pub fn k_seek_f8_c4<N: Nd>(nd: &mut N) {
 
 harnesses! {
     @reg registry3;
-    /// @meta props=C05,C04,C06:t tier=quick kind=K stage2=pub timeout=1500 mem=12 unwind=10 unwindset="seq_io::fill_buf:8" bounds="fasta::Reader::seek (source delivering symbolic chunks) from every state, every window (capacity 4, every file offset) of every file <= 8 bytes to every target byte 0..=n (in-buffer shortcut and real seek + refill)"
+    /// @meta props=C05,C04,C06 tier=quick kind=K stage2=pub timeout=1500 mem=12 unwind=10 unwindset="seq_io::fill_buf:8" bounds="fasta::Reader::seek (source delivering symbolic chunks) from every state, every window (capacity 4, every file offset) of every file <= 8 bytes to every target byte 0..=n (in-buffer shortcut and real seek + refill)"
     fak_seek_f8_c4 => k_seek_f8_c4;
 }
 
@@ -411,14 +464,7 @@ pub fn k_resume<N: Nd, const F: usize, const CAP: usize>(nd: &mut N) {
     nd.assume(!(exp.complete && exp.next < CAP));
     // state as `search` leaves it on the full window file[0..CAP]
     let last_is_lf = f[CAP - 1] == LF && CAP - 1 > h;
-    let mut v = Vec::with_capacity(8);
-    let mut i = 0;
-    while i < FA_MAXL {
-        if i < exp.nends && exp.ends[i] < CAP - 1 {
-            v.push(exp.ends[i]);
-        }
-        i += 1;
-    }
+    let v = ends_before(&exp, CAP - 1);
     let st = FaState { start: h, search_pos: if last_is_lf { CAP - 1 } else { CAP }, line: 1, byte: h as u64, state: 2 };
     let br = window::<F>(Src::plain(file, n), CAP, 0);
     let pol = RecPolicy { answer: Some(2 * CAP), asked: 0, n: 0 };
@@ -470,8 +516,195 @@ pub fn k_resume_f8_c4<N: Nd>(nd: &mut N) {
     k_resume::<N, 8, 4>(nd)
 }
 
-// not registered: the solver exhausts 24 GB on this kernel (grow -> realloc of the real buffer-redux inside the loop)
-#[cfg(not(kani))]
-pub fn registry4() -> Vec<(&'static str, fn(&mut crate::nd::TapeNd))> {
-    vec![]
+// k_resume is not registered: the solver exhausts 24 GB on it (symbolic choice between compaction and
+// growth, realloc of the real buffer-redux inside the loop).  The two instances below fix the branch.
+
+/// one concrete geometry of the compaction path: record start `h` in a full buffer of capacity CAP,
+/// file length `n`, first refill read delivering `c1` bytes (0 = as much as fits); bytes symbolic
+fn resume_compact_at<N: Nd, const F: usize, const CAP: usize>(nd: &mut N, file: &[u8; F], h: usize, n: usize, c1: usize, k: usize) {
+    use crate::c09::RecPolicy;
+    nd.assume(file[h] == b'>');
+    let f = &file[..n];
+    let exp = fa_record(f, h);
+    nd.assume(!exp.overflow);
+    // the record is not complete inside the first window (that is why the search is resumed)
+    nd.assume(!(exp.complete && exp.next < CAP));
+    let last_is_lf = f[CAP - 1] == LF;
+    let v = ends_before_k(nd, &exp, CAP - 1, k);
+    let st = FaState { start: h, search_pos: if last_is_lf { CAP - 1 } else { CAP }, line: 1, byte: h as u64, state: 2 };
+    let mut src = Src::<F>::plain(*file, n);
+    src.chunk[1] = c1;
+    let br = window::<F>(src, CAP, 0);
+    let pol = RecPolicy { answer: None, asked: 0, n: 0 };
+    let mut r = fasta::Reader::verif_from_parts(br, pol, st.start, v, st.line, st.byte, st.search_pos, st.state);
+    let res = r.verif_resume_incomplete_search(true);
+    let needed = if exp.complete { exp.next - h + 1 } else { n - h + 1 };
+    match res {
+        Ok(found) => {
+            if !(found && needed <= CAP) {
+                nd.note_num("h", h as u64);
+                nd.note_num("n", n as u64);
+                nd.note_num("first_chunk", c1 as u64);
+            }
+            vassert!(found, "C01 after a refill the record is complete");
+            vassert!(needed <= CAP, "C09 a record that does not fit is not returned without growth");
+            vassert!(r.policy().n == 0, "C09 the policy is not consulted when the record fits after compaction");
+            vassert!(r.verif_buf_reader().capacity() == CAP, "C09 no growth when the record fits");
+            vassert!(r.verif_start() == 0, "C01 compaction moves the record to the buffer start");
+            let sp = r.verif_seq_pos();
+            vassert!(sp.len() == exp.nends && ends_match(sp, &exp, h, exp.nends), "C01 the record found after the refill has exactly the reference line ends");
+            if exp.complete {
+                vassert!(r.verif_search_pos() + h == exp.next, "C01 the next record starts at the first '>' that follows a line terminator");
+                vassert!(r.verif_state() != 4, "C01 not finished while a further header exists");
+            } else {
+                vassert!(r.verif_state() == 4, "C01 finished after the last record");
+            }
+            let b = r.verif_buf_reader().buffer();
+            let want = if n - h < CAP { n - h } else { CAP };
+            vassert!(b.len() == want, "C03 the refill reads until the buffer is full or the input ends");
+            let mut ok = true;
+            let mut j = 0;
+            while j < CAP {
+                if j < b.len() && b[j] != file[h + j] {
+                    ok = false;
+                }
+                j += 1;
+            }
+            vassert!(ok, "C03 after compaction and refill the buffer holds the input from the record start on");
+            cover!(exp.complete && c1 == 1, "record completed by a refill in several reads");
+            cover!(!exp.complete, "last record completed by the end of the input");
+        }
+        Err(e) => {
+            vassert!(needed > CAP, "C01 no error when the record fits after compaction");
+            vassert!(matches!(e, fasta::Error::BufferLimit), "C09 only the refused growth is reported");
+            vassert!(r.verif_state() == 4, "C14 a refused growth is terminal");
+            cover!(true, "growth refused");
+            std::mem::forget(e);
+        }
+    }
+    std::mem::forget(r);
+}
+
+/// one concrete geometry of the growth path: unfinished first record (start 0), file length `n`,
+/// first read after the growth delivering `c1` bytes (0 = as much as fits)
+fn resume_grow_at<N: Nd, const F: usize, const CAP: usize>(nd: &mut N, file: &[u8; F], make_room: bool, n: usize, c1: usize, k: usize) {
+    use crate::c09::RecPolicy;
+    nd.assume(file[0] == b'>');
+    let f = &file[..n];
+    let exp = fa_record(f, 0);
+    nd.assume(!exp.overflow);
+    nd.assume(!(exp.complete && exp.next < CAP));
+    let last_is_lf = f[CAP - 1] == LF;
+    let v = ends_before_k(nd, &exp, CAP - 1, k);
+    let st = FaState { start: 0, search_pos: if last_is_lf { CAP - 1 } else { CAP }, line: 1, byte: 0, state: 2 };
+    let mut src = Src::<F>::plain(*file, n);
+    src.chunk[1] = c1;
+    let br = window::<F>(src, CAP, 0);
+    let pol = RecPolicy { answer: Some(2 * CAP), asked: 0, n: 0 };
+    let mut r = fasta::Reader::verif_from_parts(br, pol, st.start, v, st.line, st.byte, st.search_pos, st.state);
+    let res = r.verif_resume_incomplete_search(make_room);
+    match res {
+        Ok(found) => {
+            if !found {
+                nd.note_num("n", n as u64);
+                nd.note_num("first_chunk", c1 as u64);
+            }
+            vassert!(found, "C01 after a refill the record is complete");
+            vassert!(r.policy().n == 1 && r.policy().asked == CAP, "C09 the policy is asked once, with the current capacity");
+            vassert!(r.verif_buf_reader().capacity() == 2 * CAP, "C09 the size returned by the policy is adopted");
+            vassert!(r.verif_start() == 0, "C04 growth does not move the record");
+            let sp = r.verif_seq_pos();
+            vassert!(sp.len() == exp.nends && ends_match(sp, &exp, 0, exp.nends), "C01 the record found after the refill has exactly the reference line ends");
+            if exp.complete {
+                vassert!(r.verif_search_pos() == exp.next, "C01 the next record starts at the first '>' that follows a line terminator");
+                vassert!(r.verif_state() != 4, "C01 not finished while a further header exists");
+            } else {
+                vassert!(r.verif_state() == 4, "C01 finished after the last record");
+            }
+            let b = r.verif_buf_reader().buffer();
+            vassert!(b.len() == n, "C03 the refill after growth reads until the buffer is full or the input ends");
+            let mut ok = true;
+            let mut j = 0;
+            while j < F {
+                if j < b.len() && b[j] != file[j] {
+                    ok = false;
+                }
+                j += 1;
+            }
+            vassert!(ok, "C03 growth keeps the buffered bytes and the refill appends the input that follows");
+            cover!(exp.complete && c1 == 1, "record completed after growth and a refill in several reads");
+            cover!(!exp.complete, "last record completed by the end of the input after growth");
+        }
+        Err(e) => {
+            vassert!(false, "C01 no error with a permitting policy");
+            std::mem::forget(e);
+        }
+    }
+    std::mem::forget(r);
+}
+
+/// K: `resume_incomplete_search(make_room = true)` for an unfinished record that is not the first one
+/// in a completely filled buffer, the source delivering a short first read, the policy refusing
+/// growth: compaction + complete refill + search find exactly the reference record whenever it
+/// fits; the refused growth is a terminal BufferLimit error otherwise.  K = number of line ends the
+/// first search had already recorded (one instance per value keeps the vector's length concrete).
+pub fn k_resume_compact<N: Nd, const F: usize, const CAP: usize, const K: usize>(nd: &mut N) {
+    let file: [u8; F] = any_file::<N, F>(nd);
+    let n = nd.usize_in(CAP, F);
+    let h = nd.usize_in(1, CAP - 1);
+    let c1 = nd.usize_in(0, CAP - 1);
+    nd.note("format", b"fasta");
+    nd.note("file", &file[h..n]);
+    nd.note_num("cap", CAP as u64);
+    nd.note_num("first_chunk", c1 as u64);
+    resume_compact_at::<N, F, CAP>(nd, &file, h, n, c1, K);
+}
+
+/// K: `resume_incomplete_search` (either make_room value) for an unfinished first record in a
+/// completely filled buffer, the policy granting the capacity 2*CAP: growth + complete refill +
+/// search find exactly the reference record (files shorter than the grown buffer, so that one
+/// growth always suffices)
+pub fn k_resume_grow<N: Nd, const F: usize, const CAP: usize, const K: usize>(nd: &mut N) {
+    let file: [u8; F] = any_file::<N, F>(nd);
+    let n = nd.usize_in(CAP, F);
+    let c1 = nd.usize_in(0, CAP);
+    let make_room = nd.bool();
+    nd.note("format", b"fasta");
+    nd.note("file", &file[..n]);
+    nd.note_num("cap", CAP as u64);
+    nd.note_num("first_chunk", c1 as u64);
+    resume_grow_at::<N, F, CAP>(nd, &file, make_room, n, c1, K);
+}
+
+pub fn k_resume_compact_f8_c4_k0<N: Nd>(nd: &mut N) {
+    k_resume_compact::<N, 8, 4, 0>(nd)
+}
+pub fn k_resume_compact_f8_c4_k1<N: Nd>(nd: &mut N) {
+    k_resume_compact::<N, 8, 4, 1>(nd)
+}
+pub fn k_resume_grow_f7_c4_k0<N: Nd>(nd: &mut N) {
+    k_resume_grow::<N, 7, 4, 0>(nd)
+}
+pub fn k_resume_grow_f7_c4_k1<N: Nd>(nd: &mut N) {
+    k_resume_grow::<N, 7, 4, 1>(nd)
+}
+pub fn k_resume_grow_f7_c4_k2<N: Nd>(nd: &mut N) {
+    k_resume_grow::<N, 7, 4, 2>(nd)
+}
+
+harnesses! {
+    @reg registry4;
+    /// @meta props=C01,C03,C09,C06,C14:t tier=quick kind=K stage2=pub timeout=2400 mem=20 unwind=10 unwindset="_resume_incomplete_search:2;seq_io::fill_buf:6" bounds="fasta::Reader::resume_incomplete_search(make_room) for an unfinished record at every start 1..3 of a full buffer of capacity 4 over every file <= 8 bytes, first refill read of 1..3 bytes or complete, policy refusing growth; no line end recorded yet"
+    fak_resume_compact_f8_c4_k0 => k_resume_compact_f8_c4_k0;
+    /// @meta props=C01,C03,C09,C06,C14:t tier=quick kind=K stage2=pub timeout=2400 mem=20 unwind=10 unwindset="_resume_incomplete_search:2;seq_io::fill_buf:6" bounds="as fak_resume_compact_f8_c4_k0, one line end already recorded"
+    fak_resume_compact_f8_c4_k1 => k_resume_compact_f8_c4_k1;
+    /// @meta props=X00 tier=pilot kind=K stage2=pub timeout=2400 mem=20 unwind=10 unwindset="_resume_incomplete_search:2;seq_io::fill_buf:7" bounds="fasta::Reader::resume_incomplete_search (both make_room values) for an unfinished first record in a full buffer of capacity 4 over every file <= 7 bytes, first read after the growth of 1..4 bytes or complete, policy granting capacity 8; no line end recorded yet"
+    #[kani::stub(std::alloc::realloc, crate::util::byte_realloc)]
+    fak_resume_grow_f7_c4_k0 => k_resume_grow_f7_c4_k0;
+    /// @meta props=X00 tier=pilot kind=K stage2=pub timeout=2400 mem=20 unwind=10 unwindset="_resume_incomplete_search:2;seq_io::fill_buf:7" bounds="as fak_resume_grow_f7_c4_k0, one line end already recorded"
+    #[kani::stub(std::alloc::realloc, crate::util::byte_realloc)]
+    fak_resume_grow_f7_c4_k1 => k_resume_grow_f7_c4_k1;
+    /// @meta props=X00 tier=pilot kind=K stage2=pub timeout=2400 mem=20 unwind=10 unwindset="_resume_incomplete_search:2;seq_io::fill_buf:7" bounds="as fak_resume_grow_f7_c4_k0, two line ends already recorded"
+    #[kani::stub(std::alloc::realloc, crate::util::byte_realloc)]
+    fak_resume_grow_f7_c4_k2 => k_resume_grow_f7_c4_k2;
 }
